@@ -187,7 +187,7 @@ def check(prop, tier, replay=None):
         inconclusive.append("quota unmet: " + "; ".join(unmet))
 
     # replay files
-    rdir = os.path.join(VERIF, "replays", prop)
+    rdir = os.path.join(os.environ.get("VERIF_EVIDENCE_DIR") if os.environ.get("VERIF_REPO") and os.environ.get("VERIF_EVIDENCE_DIR") else os.path.join(VERIF, "replays"), prop)
     replay_paths = {}
     if viols and not replay:
         os.makedirs(rdir, exist_ok=True)
@@ -256,6 +256,8 @@ def write_evidence(mod, prop, tier, seed, m, lines, viols, known, inconclusive, 
     extra = getattr(mod, "evidence_extra", None)
     if extra:
         ev["coverage"].update(extra(m, tier))
-    os.makedirs(os.path.join(VERIF, "evidence"), exist_ok=True)
-    with open(os.path.join(VERIF, "evidence", f"{prop}.json"), "w") as fh:
+    evdir = os.environ.get("VERIF_EVIDENCE_DIR") if os.environ.get("VERIF_REPO") else None
+    evdir = evdir or os.path.join(VERIF, "evidence")   # a scratch-copy run never touches /verif/evidence
+    os.makedirs(evdir, exist_ok=True)
+    with open(os.path.join(evdir, f"{prop}.json"), "w") as fh:
         json.dump(ev, fh, indent=1, default=repr)
